@@ -124,6 +124,19 @@ func cmdCheck(args []string) int {
 	replayTier = o.tier
 	t0 := time.Now()
 	rep := runCheck(&o)
+	if o.tier == "thorough" && o.prop != "SELF" && o.only == "" {
+		// translator validation: the SELF suite (facts of Go semantics that must be proved, and
+		// must-fail harnesses whose counterexamples must be found and must replay) runs with
+		// every thorough check; a failure makes the check inconclusive.
+		so := o
+		so.prop, so.noEvid = "SELF", true
+		srep := runCheck(&so)
+		n, problems := srep.selfSummary(&so)
+		rep.SelfValidated = n
+		for _, p := range problems {
+			rep.Problems = append(rep.Problems, "translator validation (SELF): "+p)
+		}
+	}
 	rep.WallS = time.Since(t0).Seconds()
 	code := rep.finish(&o)
 	return code
@@ -148,6 +161,7 @@ type CheckReport struct {
 	Known     []*ConfirmedViolation
 	Problems  []string
 	Expected  int
+	SelfValidated int
 }
 
 type ConfirmedViolation struct {
@@ -450,7 +464,7 @@ func (rep *CheckReport) writeEvidence(o *checkOpts, inconclusive []string) error
 			assumptions[k] = true
 		}
 	}
-	validated = len(rep.Confirmed) + len(rep.Unconf) + len(rep.Known) + rep.Expected
+	validated = len(rep.Confirmed) + len(rep.Unconf) + len(rep.Known) + rep.Expected + rep.SelfValidated
 	if states == 0 {
 		states = 1
 	}
@@ -524,3 +538,45 @@ func firstLines(s string, n int) string {
 }
 
 func round2(f float64) float64 { return float64(int64(f*100+0.5)) / 100 }
+
+// selfSummary evaluates a run of the SELF suite: number of validated items (proved semantic
+// facts + reproduced must-fail counterexamples) and the list of problems.
+func (rep *CheckReport) selfSummary(o *checkOpts) (int, []string) {
+	var problems []string
+	n := 0
+	expect := map[string]bool{}
+	for _, g := range rep.Groups {
+		if g.err != nil {
+			problems = append(problems, g.err.Error())
+			continue
+		}
+		for name, hd := range g.P.harness {
+			if hd.Opts["expect"] == "violation" {
+				expect[name] = false
+			}
+		}
+		for _, hr := range g.results {
+			problems = append(problems, hr.Incomplete...)
+			for _, ob := range hr.Obls {
+				n += ob.Discharged + ob.Trivial
+			}
+		}
+	}
+	for _, c := range rep.Confirmed {
+		if _, ok := expect[c.V.Harness]; ok {
+			expect[c.V.Harness] = true
+			n++
+		} else {
+			problems = append(problems, "semantic fact refuted: "+c.V.Harness+" "+c.V.Label)
+		}
+	}
+	for _, u := range rep.Unconf {
+		problems = append(problems, "unreplayed counterexample in "+u.V.Harness+" "+u.V.Label)
+	}
+	for h, ok := range expect {
+		if !ok {
+			problems = append(problems, "must-fail harness "+h+" found no reproduced counterexample")
+		}
+	}
+	return n, problems
+}
